@@ -154,6 +154,7 @@ class MementoFunction(MementoFunctionBase):
         return self._hash_rules
 
     explicit_version = None  # type: Optional[str]
+    _clone_of_auto_versioned = False  # type: bool
     _calculated_version = None  # type: Optional[str]
 
     def version(self) -> str:
@@ -344,7 +345,7 @@ class MementoFunction(MementoFunctionBase):
         version_salt: str = None,
     ) -> MementoFunctionType:
         """Re-constructs a clone of this function, modifying one or more attributes"""
-        return MementoFunction(
+        clone = MementoFunction(
             fn=fn or self.fn,
             src_fn=src_fn or self.src_fn,
             cluster_name=cluster_name or self.cluster_name,
@@ -360,6 +361,13 @@ class MementoFunction(MementoFunctionBase):
             version_salt=version_salt or self._constructor_provided_version_salt,
             register_fn=False,
         )
+        # The clone pins the version calculated so far. That is not a version declared by the
+        # user: calls made through the clone stay subject to the undeclared-dependency check.
+        clone._clone_of_auto_versioned = (
+            version is None
+            and (self.explicit_version is None or self._clone_of_auto_versioned)
+        )
+        return clone
 
     def call(self, *args, **kwargs):
         self._validate_dependency()
@@ -583,7 +591,9 @@ class MementoFunction(MementoFunctionBase):
             frame.memento.invocation_metadata.fn_reference_with_args.fn_reference
         )
         caller = cast(MementoFunctionType, caller_ref.memento_fn)
-        if caller.explicit_version is not None:
+        if caller.explicit_version is not None and not getattr(
+            caller, "_clone_of_auto_versioned", False
+        ):
             # Caller has declared version explicitly, so there is no need to worry that
             # dependencies were not detected properly. Carry on.
             return
